@@ -122,6 +122,20 @@ func genSkipRun(g *fgen, n int, modes []string, skipProb, runProb float64) []*Sc
 		for _, r := range p.roots {
 			q.roots = append(q.roots, g.rmutate(r, 0.1, 0.05, 0.1, []string{"snapshot"}))
 		}
+		if skipProb > 0 && g.chance(0.2) {
+			// two skipped siblings whose names differ by a byte that sorts below "/", one of them
+			// with subtests of its own: a skip protects exactly that test and its descendants
+			kid := func(n string) *rnode {
+				return &rnode{name: n, calls: []*callSpec{g.call([]string{"snapshot"}, []string{""})}}
+			}
+			v1 := &rnode{name: "v1", skip: "Skip", calls: []*callSpec{g.call([]string{"snapshot"}, []string{""})}, subs: []*rnode{kid("list"), kid("get")}}
+			v11 := &rnode{name: g.pick("v1.1", "v1-beta", "v1#x"), skip: "SkipNow", calls: []*callSpec{g.call([]string{"snapshot"}, []string{""})}}
+			pv1 := &rnode{name: "v1", calls: v1.calls, subs: v1.subs}
+			pv11 := &rnode{name: v11.name, calls: v11.calls}
+			p.roots[0].subs = append(p.roots[0].subs, pv1, pv11)
+			q.roots[0].subs = append(q.roots[0].subs, v1, v11)
+			sc.Procs[0].Tests = p.tests()
+		}
 		spec := procSpec(modes[g.r.Intn(len(modes))])
 		if g.chance(runProb) {
 			spec.Run = g.runPattern(q)
